@@ -63,7 +63,11 @@ def main():
                 pk = "./" + pkgdir(demos[0]) if pkgdir(demos[0]) != "." else "."
                 democmd = f"go test {os.environ.get('SEED_TEST_FLAGS', '')} -vet=off -count=1 -timeout 180s -run '{runre}' {pk}"
                 rc, out, dt = sh(f"git apply {patch}", wt); rec("git apply patch.diff", rc, out, dt)
-                if rc: print(sid, "REJECT: patch does not apply"); continue
+                if rc:
+                    # written against an older HEAD (before a later fix: commit): three-way merge, keep the rebased diff
+                    rc, out, dt = sh(f"git apply --3way {patch} && git diff HEAD > {mdir}/patch.rebased.diff", wt); rec("git apply --3way patch.diff (rebased onto HEAD)", rc, out, dt)
+                    if rc: print(sid, "REJECT: patch does not apply"); continue
+                    patch = os.path.join(mdir, "patch.rebased.diff")
                 rc, out, dt = sh("go build ./... && go vet ./...", wt); rec("go build ./... && go vet ./...", rc, out, dt)
                 if rc: print(sid, "REJECT: build/vet fails"); continue
                 rc, out, dt = sh("go test -vet=off -count=1 -timeout 10m ./...", wt); rec("go test ./... (with mutation)", rc, out, dt)
@@ -74,7 +78,7 @@ def main():
                 rc, out, dt = sh(democmd, wt, timeout=300); rec("demo with mutation: " + democmd, rc, out, dt)
                 with_fail = rc != 0
                 drop()
-                sh("git checkout -- . && git clean -fdq", wt)
+                sh("git reset -q --hard && git clean -fdq", wt)
                 put()
                 rc, out, dt = sh(democmd, wt, timeout=300); rec("demo without mutation: " + democmd, rc, out, dt)
                 without_pass = rc == 0
